@@ -296,6 +296,7 @@ pub struct Bump<const MIN_ALIGN: usize = 1> {
 }
 
 #[repr(C)]
+#[repr(align(16))]
 #[derive(Debug)]
 struct ChunkFooter {
     // Pointer to the start of this chunk allocation. This footer is always at
